@@ -78,8 +78,12 @@ def r2(ctx, prog):
     # `goto rollback` or by falling out of `if (claimed)` blocks does not matter
     cursors = {rl.var_of(f, f.nodes[e]["ptr"]) for e in cas} - {None}
     decs = [a for d_ in cursors for a, kind, opnd in f.var_updates(d_) if kind == "sub" and opnd == 1]
-    ctx.check(R, len(cursors) == 1 and len(decs) == 1, f.where(), "one field cursor, walked back at exactly one place (the roll-back)", key="C14.R2:shape")
-    labels = decs[:1] if len(cursors) == 1 else []
+    # (the anchor of this rule: without it the rule cannot tell claim from undo, which is "undecided", not a violation)
+    if not (len(cursors) == 1 and len(decs) == 1):
+        ctx.broke("C14.R2: mi_bitmap_try_find_claim_field_across no longer has one field cursor that is walked back at exactly one place (the roll-back); the multi-field claim protocol was re-shaped and has to be re-read")
+    else:
+        ctx.check(R, True, f.where(decs[0]), "anchor: one field cursor, walked back at exactly one place (the roll-back)", key="C14.R2:shape")
+    labels = decs[:1] if len(cursors) == 1 and len(decs) == 1 else []
     if labels:
         rb = cfg.pt(labels[0])
         claim_cas = [e for e in cas if not cfg.reaches(rb, cfg.pt(e))]
